@@ -51,10 +51,23 @@ CODEGEN_FILES = [str(_LEAN / f) for f in (
     "FfcxModel/Codegen/Block.lean", "FfcxModel/Codegen/Spec.lean",
     "FfcxProofs/Lemmas/CodegenAcc.lean", "FfcxProofs/Lemmas/CodegenNest.lean",
     "FfcxProofs/Lemmas/CodegenEval.lean", "FfcxProofs/Lemmas/CodegenBlock.lean",
+    "FfcxProofs/Lemmas/CodegenGroup.lean",
 )]
+PARTITION_MODULE = "FfcxProofs.C01Partition"
+PARTITION_FILES = [str(_LEAN / "FfcxModel/Codegen/Partition.lean")]
+PARTITION_THEOREMS = [
+    "Ffcx.Codegen.partition_ssa", "Ffcx.Codegen.uflToLnodes_sound_partial", "Ffcx.Codegen.graph_recurrence_unique",
+]
 CODEGEN_THEOREMS = [
-    "Ffcx.Codegen.forRange_accumulate", "Ffcx.Codegen.nest_accumulate", "Ffcx.Codegen.genBlock_nest",
-    "Ffcx.Codegen.genBlock_spec", "Ffcx.Codegen.quadLoop_spec", "Ffcx.Codegen.genBlock_entry_spec",
+    # reusable loop rules (any trip counts, any terms)
+    "Ffcx.Codegen.forRange_accumulate", "Ffcx.Codegen.nest_accumulate",
+    # the generated "Tensor Computation" section: any description / closed form for regular groups
+    "Ffcx.Codegen.genBlock_nest", "Ffcx.Codegen.genBlock_spec", "Ffcx.Codegen.genBlock_entry_spec",
+    "Ffcx.Codegen.emittedTerms_perm",
+    # the quadrature loop as handed to optimize
+    "Ffcx.Codegen.groups_spec", "Ffcx.Codegen.quadLoop_spec", "Ffcx.Codegen.fwAssigns_spec",
+    "Ffcx.Codegen.fw_value", "Ffcx.Codegen.kernel_meets_spec_partial",
+    "Ffcx.Codegen.Example.lawful",
 ]
 
 
@@ -193,7 +206,72 @@ def capture():
     o_gbp, o_ebp = IG.IntegralGenerator.generate_block_parts, EG.ExpressionGenerator.generate_block_parts
     o_gql, o_gvp = IG.IntegralGenerator.generate_quadrature_loop, IG.IntegralGenerator.generate_varying_partition
     o_gdp, o_opt = IG.IntegralGenerator.generate_dofblock_partition, IG.optimize
+    o_igp, o_egp = IG.IntegralGenerator.generate_partition, EG.ExpressionGenerator.generate_partition
     cur = []  # stack of open quadloop records
+
+    def acc(a):
+        """An access as `get_var` returns it: an LNodes expression or a plain Python int."""
+        if isinstance(a, (int, np.integer)) and not isinstance(a, (bool, np.bool_)):
+            return f"(py {int(a)})"
+        return export.expr(a)
+
+    def partition_rec(integral, gen, symbol, F, mode, lookup, run):
+        """Describe a `generate_partition` call (before), run it, complete the description (after)."""
+        rec = {"kind": "partition", "integral": integral, "symbol": symbol.name}
+        pre = {}
+        try:
+            for i, attr in F.nodes.items():
+                v = attr["expression"]
+                if not v._ufl_is_literal_:
+                    a = lookup(v)
+                    if a is not None:
+                        pre[i] = acc(a)
+        except export.ExportError as ex:
+            rec["unexportable"] = str(ex)
+        try:
+            r = run()
+        except Exception as ex:
+            rec["real"] = ("raise", _exc_name(ex))
+            rec.setdefault("unexportable", "raised before the description was complete")
+            recs.append(rec)
+            raise
+        try:
+            nodes, post = [], {}
+            for i, attr in F.nodes.items():
+                v = attr["expression"]
+                active = attr["status"] == mode
+                if v._ufl_is_literal_:
+                    kind = f"(literal {export.expr(L.ufl_to_lnodes(v))})"
+                elif attr.get("mt"):
+                    a = lookup(v)
+                    # an inactive, never-defined terminal has no access: it cannot be an operand here
+                    kind = f"(terminal {acc(a) if a is not None else '(li 0)'})"
+                    if a is not None:
+                        post[i] = acc(a)
+                else:
+                    ops = " ".join(str(int(F.e2i[o])) for o in v.ufl_operands)
+                    kind = f"(operator {type(v).__name__} {v._ufl_handler_name_} ({ops}))"
+                    a = lookup(v)
+                    if a is not None:
+                        post[i] = acc(a)
+                nodes.append(f"(pnode {int(i)} {_b(active)} {kind})")
+            rec["nodes"], rec["pre"], rec["post"] = nodes, pre, post
+            inter = r[1] if integral else [s_ for s_ in r if isinstance(s_, L.VariableDecl) and
+                                           s_.symbol.name.startswith(symbol.name + "_")]
+            rec["real"] = ("ok", [stmt_o(s_) for s_ in inter])
+        except (export.ExportError, KeyError) as ex:
+            rec["unexportable"] = f"{type(ex).__name__}: {ex}"
+        recs.append(rec)
+        return r
+
+    def igp(self, symbol, F, mode, quadrature_rule, domain):
+        return partition_rec(True, self, symbol, F, mode, lambda v: self.get_var(quadrature_rule, domain, v),
+                             lambda: o_igp(self, symbol, F, mode, quadrature_rule, domain))
+
+    def egp(self, symbol, F, mode):
+        # the expression generator never tests its cache, but operands are looked up in `self.scope`
+        return partition_rec(False, self, symbol, F, mode, lambda v: self.scope.get(v),
+                             lambda: o_egp(self, symbol, F, mode))
 
     def gbp(self, quadrature_rule, domain, blockmap, blocklist):
         rec = {"kind": "group"}
@@ -289,9 +367,11 @@ def capture():
     IG.IntegralGenerator.generate_block_parts, EG.ExpressionGenerator.generate_block_parts = gbp, ebp
     IG.IntegralGenerator.generate_quadrature_loop, IG.IntegralGenerator.generate_varying_partition = gql, gvp
     IG.IntegralGenerator.generate_dofblock_partition, IG.optimize = gdp, opt
+    IG.IntegralGenerator.generate_partition, EG.ExpressionGenerator.generate_partition = igp, egp
     try:
         yield recs
     finally:
+        IG.IntegralGenerator.generate_partition, EG.ExpressionGenerator.generate_partition = o_igp, o_egp
         IG.IntegralGenerator.generate_block_parts, EG.ExpressionGenerator.generate_block_parts = o_gbp, o_ebp
         IG.IntegralGenerator.generate_quadrature_loop, IG.IntegralGenerator.generate_varying_partition = o_gql, o_gvp
         IG.IntegralGenerator.generate_dofblock_partition, IG.optimize = o_gdp, o_opt
@@ -385,6 +465,27 @@ def compare_record(chk, driver, rec, origin, stats, wf=True):
         else:
             if rep[1:] != _sl(real[1]):
                 bad("ExpressionGenerator.generate_block_parts: quadparts", rep[1:], _sl(real[1]), req)
+    elif kind == "partition":
+        scope = " ".join(f"({i} {e})" for i, e in rec["pre"].items())
+        req = f"(gen_partition {_b(rec['integral'])} {rec['symbol']} ({' '.join(rec['nodes'])}) ({scope}))"
+        rep = driver.ask(req)
+        real = rec["real"]
+        nops = sum(1 for n in rec["nodes"] if "(operator " in n)
+        chk.case(kind="codegen_partition", key=f"partition:{rec['integral']}:{nops}:{len(real[1])}" if nops else None)
+        _inc(stats, "partitions", "integral" if rec["integral"] else "expression")
+        stats["partition_intermediates"] = stats.get("partition_intermediates", 0) + len(real[1])
+        if rep[0] != "ok":
+            bad("generate_partition: model raises, real code returns", rep, real[1][:2], req[:4000])
+        else:
+            if rep[1] != _sl(real[1]):
+                bad("generate_partition: intermediates", rep[1], _sl(real[1]), req[:4000])
+            if real[1]:
+                w = driver.ask(f"(ssa_ok ({' '.join(real[1])}))")
+                _inc(stats, "partition_ssa", f"ssa={w[1] if w[0] == 'ok' else w}")
+            model_scope = {int(i): e for i, e in rep[2]}
+            want = {int(i): sexp.loads(e) for i, e in rec["post"].items()}
+            if model_scope != want:
+                bad("generate_partition: scope after the call", sorted(model_scope.items())[:6], sorted(want.items())[:6], req[:4000])
     elif kind == "quadloop":
         need = ("defs", "inter0", "tc", "fw", "code_in", "code_out", "loop")
         if not all(k in rec for k in need):
@@ -421,6 +522,16 @@ def check_groups_fold(chk, driver, recs, origin, stats):
             chk.disagree("codegen model vs real generator: generate_dofblock_partition (all groups of a rule)",
                          {"origin": origin, "input": req[:4000], "model": rep[:3], "impl": [rec["tc"], rec["fw"]]})
         stats["group_folds"] = stats.get("group_folds", 0) + 1
+        # decidable side conditions of quadLoop_spec / kernel_meets_spec_partial on the whole loop
+        w = driver.ask(f"(loop_wf ({' '.join(g['desc'] for g in gs)}) {gs[0]['state']} ({' '.join(rec['fw'])}))")
+        flags = {k: v for k, v in w[1:]} if w[0] == "ok" else {"driver": str(w)}
+        covered = flags.get("groups") == "true"
+        _inc(stats, "loop_side_conditions", "covered_by_quadLoop_spec" if covered else "outside_quadLoop_spec")
+        for k, v in flags.items():
+            _inc(stats, "loop_side_conditions", f"{k}={v}")
+        if covered and not (flags.get("fwdecls") == "true" and flags.get("fwlinked") == "true"):
+            chk.disagree("side condition of kernel_meets_spec_partial (fw protocol) fails on a real quadrature loop",
+                         {"origin": origin, "input": req[:4000], "model": flags, "impl": "generated by FFCx"})
 
 
 # ================================================================================ real corpus
@@ -498,7 +609,7 @@ def check_blocks(chk, driver, entries):
 
 def _finish_stats(stats):
     stats.pop("synthetic_calls", None)
-    for k in ("branches", "side_conditions", "synthetic_branches"):
+    for k in ("branches", "side_conditions", "loop_side_conditions", "partition_ssa", "synthetic_branches"):
         if k in stats:
             stats[k] = dict(sorted(stats[k].items()))
 
@@ -679,8 +790,22 @@ def synthetic_eblock(rng):
 
 def check_synthetic(chk, driver, seed, n):
     """`n` seeded synthetic block descriptions through the real functions and the model."""
+    import logging
+
     stats = chk.notes.setdefault("codegen", {})
     rng = random.Random(seed * 7919 + 17)
+    lg = logging.getLogger("ffcx")
+    was = lg.disabled
+    lg.disabled = True  # `symbols.entity` logs an exception for the unknown entity types we feed it
+    try:
+        _synthetic_loop(chk, driver, seed, n, rng, stats)
+    finally:
+        lg.disabled = was
+    _finish_stats(stats)
+    return stats
+
+
+def _synthetic_loop(chk, driver, seed, n, rng, stats):
     for k in range(n):
         sub = random.Random(rng.randrange(1 << 60))
         thunk = (synthetic_eblock if k % 4 == 3 else synthetic_group)(sub)
@@ -697,8 +822,6 @@ def check_synthetic(chk, driver, seed, n):
                 br = _branch(rec["desc"]) + (rec["real"][0] if rec["real"][0] == "ok" else rec["real"][1],)
                 _inc(stats, "synthetic_branches", br)
         stats["synthetic"] = stats.get("synthetic", 0) + 1
-    _finish_stats(stats)
-    return stats
 
 
 # =================================================================================== runner
@@ -742,7 +865,8 @@ def main(argv=None):
     else:
         print(f"real blocks: {st.get('real_blocks')}  quadrature loops: {st.get('quadloops')}  group folds: {st.get('group_folds')}  "
               f"synthetic: {st.get('synthetic')}  cases: {chk.cases}  distinct: {len(chk.keys)}  ({time.time() - t0:.1f} s)")
-        for k in ("branches", "side_conditions", "synthetic_branches"):
+        print(f"partitions: {st.get('partitions')}  intermediates: {st.get('partition_intermediates')}")
+        for k in ("branches", "side_conditions", "loop_side_conditions", "partition_ssa", "synthetic_branches"):
             print(f"-- {k}")
             for b, c in (st.get(k) or {}).items():
                 print(f"   {c:5d}  {b}")
